@@ -436,6 +436,7 @@ func runC03(c *Ctx) {
 	checkInvalidationAlwaysEvicts(c, "C03-R4") // an account object outlives its row only until it is invalidated
 	// an imported key keeps its scope's address format when its row is loaded again (C08-R3's sibling-agreement rule)
 	checkImportPathsAgreeOnSchemaField(c, "C03-R5")
+	checkPubPrivSlotsAreTwins(c, "C03-R1")
 	// an import that runs while the manager is locked seals the key under the wiped (all-zero) crypto key: it is handed
 	// back for as long as the object lives and is lost at the next lock (C05-R1's gating rule, for the import paths)
 	c.Borrow(func(c2 *Ctx) { checkLockGating(c2, "C03-R3") }, "C03-R3", "C03-R3", func(k string) bool {
@@ -624,6 +625,7 @@ func checkExtKeyAddressesRegisteredForUnlock(c *Ctx, rule string) {
 			}
 			n++
 			registered := false
+			var regStores []ssa.Instruction
 			for _, b := range fn.Blocks {
 				for _, ins := range b.Instrs {
 					st, ok := ins.(*ssa.Store)
@@ -640,11 +642,94 @@ func checkExtKeyAddressesRegisteredForUnlock(c *Ctx, rule string) {
 					for _, o := range (&Slicer{P: p, KeepExtract: true}).Origins(st.Val) {
 						if ex, ok := o.(*ssa.Extract); ok && ex.Tuple == ssa.Value(call) {
 							registered = true
+							regStores = append(regStores, st)
 						}
 						if o == ssa.Value(call) {
 							registered = true
+							regStores = append(regStores, st)
 						}
 					}
+				}
+			}
+			// where the entry is made in the constructing function itself and at once (not in a commit callback), it
+			// is made for EVERY object that has nothing but a public key and whose account has a private one: the only
+			// ways round it are "the key is private" and "the account has no private key" — each object needs its own
+			// entry (Unlock fills keys per object), so "an object for this address is cached already" is not one
+			if len(regStores) > 0 && fn.Parent() == nil {
+				direct := true
+				for _, rs := range regStores {
+					if rs.Parent() != fn {
+						direct = false
+					}
+				}
+				if direct {
+					q := &PathQuery{Fn: fn, Target: p.nonErrorReturn()}
+					q.Barrier = func(i ssa.Instruction) bool {
+						for _, rs := range regStores {
+							if rs == i {
+								return true
+							}
+						}
+						return false
+					}
+					// the boolean v having the value `val` says "nothing to derive": the key is private, the account has no
+					// private key, or the manager is not locked — also where the condition is computed into a variable first
+					// (`needs := !k.IsPrivate() && len(enc) != 0; if needs {`: a short-circuit merge)
+					var nothingToDerive func(v ssa.Value, val bool, depth int) bool
+					nothingToDerive = func(v ssa.Value, val bool, depth int) bool {
+						if depth > 4 {
+							return false
+						}
+						inner, neg := unwrapNot(v)
+						if neg {
+							return nothingToDerive(inner, !val, depth+1)
+						}
+						if isResultOfCall(inner, "IsPrivate", -1) {
+							return val
+						}
+						if isResultOfCall(inner, "IsLocked", -1) {
+							return !val
+						}
+						if ph, ok := inner.(*ssa.Phi); ok && !val {
+							// a && b merged: false came from the conjunct that ended the evaluation, or from the last one
+							for i, e := range ph.Edges {
+								if bv, isC := constBool(e); isC {
+									if bv {
+										return false
+									}
+									pred := ph.Block().Preds[i]
+									iff, ok := pred.Instrs[len(pred.Instrs)-1].(*ssa.If)
+									if !ok || !nothingToDerive(iff.Cond, pred.Succs[0] == ph.Block(), depth+1) {
+										return false
+									}
+									continue
+								}
+								if !nothingToDerive(e, false, depth+1) {
+									return false
+								}
+							}
+							return true
+						}
+						if cf, ok := p.cmpForm(inner, val); ok && cf.Rel == "==" && cf.L.Konst == 0 && len(cf.L.Coef) == 1 {
+							for k := range cf.L.Coef {
+								if strings.HasPrefix(k, "call:len(") && strings.Contains(k, "acctKeyEncrypted") {
+									return true
+								}
+							}
+						}
+						return false
+					}
+					q.EdgeBarrier = func(from *ssa.BasicBlock, si int) bool {
+						iff, ok := from.Instrs[len(from.Instrs)-1].(*ssa.If)
+						return ok && nothingToDerive(iff.Cond, si == 0, 0)
+					}
+					hits := q.From(call)
+					pos := call.Pos()
+					if len(hits) > 0 {
+						pos = hits[0].Ins.Pos()
+					}
+					c.Check(rule, "ext-key-address-always-recorded-when-key-is-missing:"+fnName(fn), pos, len(hits) == 0,
+						fnName(fn)+" can hand out an address object built from a public key without a derive-on-unlock entry although its account has a private key (some other condition skips the entry): that object never receives its private key, PrivKey() answers watching-only while the wallet is unlocked")
 				}
 			}
 			c.Check(rule, "ext-key-address-recorded-for-derive-on-unlock:"+fnName(fn), call.Pos(), registered,
